@@ -84,8 +84,12 @@ impl RustRuleEngine {
     where
         F: FnMut(&str, &Facts),
     {
+        #[cfg_attr(rre_verif, allow(unused_imports))]
         use chrono::Utc;
+        #[cfg(not(rre_verif))]
         let timestamp = Utc::now();
+        #[cfg(rre_verif)]
+        let timestamp = crate::verif_hooks::utc_now();
         let start_time = std::time::Instant::now();
         let mut cycle_count = 0;
         let mut rules_evaluated = 0;
@@ -442,6 +446,9 @@ impl RustRuleEngine {
 
     /// Execute all rules in the knowledge base against the given facts
     pub fn execute(&mut self, facts: &Facts) -> Result<GruleExecutionResult> {
+        #[cfg(rre_verif)]
+        return self.execute_at_time(facts, crate::verif_hooks::utc_now());
+        #[cfg(not(rre_verif))]
         self.execute_at_time(facts, Utc::now())
     }
 
